@@ -549,6 +549,18 @@ func execute(t *testing.T, p plan) (out outcome) {
 				if valid && (skew == window || skew == -window+1) {
 					out.labels["skew-at-limit"] = true
 				}
+				if now >= 24*time.Hour {
+					out.labels["uptime>=1day"] = true
+				}
+				if now >= (1<<32)*time.Millisecond {
+					out.labels["uptime>=2^32ms"] = true
+				}
+				if was && valid && now >= (1<<31)*time.Millisecond {
+					out.labels["replay-in-window-after-long-uptime"] = true
+					if fa := acceptLog[0]; acceptedAt-fa < (1<<32)*time.Millisecond && now-fa >= (1<<32)*time.Millisecond-61*time.Second {
+						out.labels["replay-in-window-across-2^32ms-of-pool-uptime"] = true
+					}
+				}
 				if !valid && (skew == window+1 || skew == -window) {
 					out.labels["skew-just-outside"] = true
 				}
@@ -627,7 +639,7 @@ type rawStep struct{ Kind, A, B, C, D int }
 
 var rawGen = rapid.Custom(func(t *rapid.T) rawStep {
 	return rawStep{
-		Kind: rapid.IntRange(0, 19).Draw(t, "kind"),
+		Kind: rapid.IntRange(0, 21).Draw(t, "kind"),
 		A:    rapid.IntRange(0, 63).Draw(t, "a"),
 		B:    rapid.IntRange(0, 63).Draw(t, "b"),
 		C:    rapid.IntRange(0, 63).Draw(t, "c"),
@@ -636,6 +648,11 @@ var rawGen = rapid.Custom(func(t *rapid.T) rawStep {
 })
 
 func at[T any](xs []T, i int) T { return xs[i%len(xs)] }
+
+// long uptimes: wrap points of 31/32/33-bit millisecond counters and of a 32-bit second counter, and a plain long time
+var uptimeAlphabet = []time.Duration{(1 << 32) * time.Millisecond, (1 << 32) * time.Millisecond, (1 << 31) * time.Millisecond, (1 << 33) * time.Millisecond, 400 * 24 * time.Hour,
+	2 * (1 << 32) * time.Millisecond, (1 << 32) * time.Second / 1024, 24 * time.Hour}
+var uptimeFine = []time.Duration{0, time.Millisecond, -time.Millisecond, 30 * time.Second, -30 * time.Second, 60 * time.Second, -60 * time.Second, time.Nanosecond, 500 * time.Millisecond}
 
 func drawClass(rt *rapid.T) sstcp.Class {
 	return sstcp.Class{
@@ -679,9 +696,13 @@ func drawPlan(rt *rapid.T) plan {
 		}
 		return i
 	}
-	note := func(r int) { // what the model expects of a genuine presentation
+	firstAccept := time.Duration(-1) // instant of the first acceptance of the history (the salt pool's "epoch")
+	note := func(r int) {            // what the model expects of a genuine presentation
 		if _, was := accepted[r]; !was && validAt(p.Reqs[r].At, now) {
 			accepted[r] = now
+			if firstAccept < 0 {
+				firstAccept = now
+			}
 		}
 	}
 	for _, s := range raws {
@@ -787,6 +808,44 @@ func drawPlan(rt *rapid.T) plan {
 			p.Steps = append(p.Steps, step{Kind: stDeliver, Conn: pending[i].conn})
 			note(pending[i].req)
 			pending = append(pending[:i:i], pending[i+1:]...)
+		case kind == 20: // long uptime: a very large advance
+			d := at(uptimeAlphabet, s.A) + at(uptimeFine, s.B)
+			p.Steps = append(p.Steps, step{Kind: stAdv, D: d})
+			now += d
+		case kind == 21:
+			// uptime probe: (an early acceptance fixes the pool's epoch;) the clock moves to epoch + W + fine - lead with W a
+			// wrap point of a millisecond/second counter (or 0: only the sub-second phase of the epoch matters); a victim is
+			// accepted (client clock 30 s ahead / on time); a short while later another request is accepted (prunes); the
+			// victim's bytes again
+			if firstAccept < 0 {
+				f := newReq(false, 0, s.B) // skew 0 + phase
+				p.Steps = append(p.Steps, step{Kind: stPresent, Req: f})
+				note(f)
+				if firstAccept < 0 {
+					continue
+				}
+			}
+			lead := at([]time.Duration{0, time.Second, 11 * time.Second, 30 * time.Second, 59 * time.Second, 60 * time.Second, 500 * time.Millisecond}, s.C)
+			target := firstAccept + at(append([]time.Duration{0, 1300 * time.Millisecond}, uptimeAlphabet...), s.A) + at(uptimeFine, s.B) - lead
+			if d := target - now; d > 0 {
+				p.Steps = append(p.Steps, step{Kind: stAdv, D: d})
+				now += d
+			}
+			p.Reqs = append(p.Reqs, reqSpec{At: now + at([]time.Duration{30 * time.Second, 0, 30*time.Second + 999*time.Millisecond, -29 * time.Second}, s.C/7)})
+			v := len(p.Reqs) - 1
+			genuine = append(genuine, v)
+			p.Steps = append(p.Steps, step{Kind: stPresent, Req: v})
+			note(v)
+			gap := at([]time.Duration{11 * time.Second, time.Second, 59 * time.Second, 60*time.Second - time.Millisecond, 60*time.Second - time.Nanosecond, 60*time.Second - 500*time.Millisecond,
+				29 * time.Second, time.Millisecond, 30 * time.Second}, s.D)
+			p.Steps = append(p.Steps, step{Kind: stAdv, D: gap})
+			now += gap
+			p.Reqs = append(p.Reqs, reqSpec{At: now})
+			f := len(p.Reqs) - 1
+			genuine = append(genuine, f)
+			p.Steps = append(p.Steps, step{Kind: stPresent, Req: f}, step{Kind: stPresent, Req: v})
+			note(f)
+			note(v)
 		case kind == 18 && p.Managed: // a credential-store operation
 			p.Steps = append(p.Steps, step{Kind: stCred, K: s.A % crOps})
 		case kind == 19 && p.Managed:
@@ -865,7 +924,8 @@ var recHist = ev.New("C03", "replay-history",
 		"validity start/end and accept+60s/61s of an existing request), present a new request built by the real client at client instant "+
 		"server-now+skew (skew in {-31,-30,-29,-1,0,1,29,30,31}s + sub-second phase), present an existing request again, present unauthenticated "+
 		"traffic derived from a request (garbage, bit flips in fixed header/EIH/prefix, genuine salt + random, truncated, foreign key), present k in 2..8 "+
-		"copies concurrently, open a connection whose bytes arrive later (HandleStream already blocked in its first read while the clock moves; "+
+		"copies concurrently, very large advances (2^31/2^32/2^33 ms, 2^22 s, 1 day, 400 days, +-{0,1ns,1ms,500ms,30s,60s}) and an uptime probe = early accept / clock to "+
+		"first-accept + W + fine - lead / victim accepted / +gap in {1ms,1s,11s,29s,30s,59s,60s-500ms,60s-1ms,60s-1ns} / other accept / victim again, open a connection whose bytes arrive later (HandleStream already blocked in its first read while the clock moves; "+
 		"idle probe = open / optional acceptance of the same request elsewhere / +d in {0,1s-1ns,1s,29..31s,59..61s,100s} / optional other accept / bytes arrive; "+
 		"for identity-header classes optionally a server whose users are managed by cred.Manager from a store file, with steps edit file + ReloadAll / "+
 		"LoadFromFile, AddCredential, DeleteCredential, UpdateCredential of other users and a credential probe = accept / credential operation(s) / same bytes again; "+
@@ -876,6 +936,7 @@ var recHist = ev.New("C03", "replay-history",
 		"presented-outside-window", "skew-at-limit", "skew-just-outside", "concurrent", "valid-after-refused-as-outside-window",
 		"idle>=1s-before-bytes-arrive", "idle>=31s-before-bytes-arrive", "idle-connection-opened-before-earlier-acceptance",
 		"idle-connection-opened-before-acceptance-delivered-after-retention",
+		"uptime>=1day", "uptime>=2^32ms", "replay-in-window-after-long-uptime", "replay-in-window-across-2^32ms-of-pool-uptime",
 		"managed-server", "cred-reload", "cred-add", "cred-delete", "cred-update", "replay-in-window-after-credential-change")
 
 func record(rec *ev.Recorder, p plan, out outcome) {
@@ -1070,6 +1131,19 @@ func regressionPlans() []plan {
 				Reqs: []reqSpec{{At: baseServerAdv + d + 29*time.Second}, {At: baseServerAdv + d}},
 				Steps: []step{{Kind: stOpen, Req: 0, Conn: 0}, {Kind: stAdv, D: d}, {Kind: stDeliver, Conn: 0}, {Kind: stPresent, Req: 1},
 					{Kind: stPresent, Req: 0}, {Kind: stAdv, D: 59 * time.Second}, {Kind: stPresent, Req: 0}}})
+		}
+	}
+	// long uptime: the pool's first acceptance is 2^32 ms (and 2^31, 2^33 ms, 400 days) before the victim's salt is due
+	for ci, c := range []sstcp.Class{{KeyLen: 16, Segmented: true}, {KeyLen: 32, NIPSK: 1, Fallback: true}} {
+		for _, w := range []time.Duration{(1 << 32) * time.Millisecond, (1 << 31) * time.Millisecond, (1 << 33) * time.Millisecond, 400 * 24 * time.Hour} {
+			for _, lead := range []time.Duration{time.Second, 30 * time.Second, 59 * time.Second} {
+				t1 := w - lead // server instant (after Start) at which the victim is accepted
+				ps = append(ps, plan{Class: c, Seed: uint64(500 + ci), Start: baseServerAdv + 300*time.Millisecond,
+					Reqs: []reqSpec{{At: baseServerAdv + 300*time.Millisecond}, {At: baseServerAdv + 300*time.Millisecond + t1 + 30*time.Second},
+						{At: baseServerAdv + 300*time.Millisecond + t1 + 11*time.Second}, {At: baseServerAdv + 300*time.Millisecond + t1 + 60*time.Second - time.Millisecond}},
+					Steps: []step{{Kind: stPresent, Req: 0}, {Kind: stAdv, D: t1}, {Kind: stPresent, Req: 1}, {Kind: stAdv, D: 11 * time.Second}, {Kind: stPresent, Req: 2},
+						{Kind: stPresent, Req: 1}, {Kind: stAdv, D: 49*time.Second - time.Millisecond}, {Kind: stPresent, Req: 3}, {Kind: stPresent, Req: 1}}})
+			}
 		}
 	}
 	// replay history must survive credential changes of a managed multi-user server
